@@ -45,7 +45,26 @@ def programs(t):
             lines.append('P(%s, %d, %s, %d, 2)' % (rep, le, rep, re))
         lines.append('P(%s, -4, i32, -2, 2)' % rep)
         lines.append('P(i16, 3, %s, -1, 2)' % rep)
+    lines += elastic_boundary_programs(t)
     return lines
+
+
+def elastic_boundary_programs(t, unsigned=False):
+    """elastic reps whose digits + alignment gap land on the storage boundaries (8,16,32,64 +-1)"""
+    out = []
+    digs = (7, 20, 31) if not t else (3, 7, 15, 20, 24, 31, 40)
+    sums = (16, 32, 64) if not t else (8, 15, 16, 17, 31, 32, 33, 63, 64, 65)
+    for d in digs:
+        for s_ in sums:
+            gap = s_ - d
+            if gap < 1 or gap > 45:
+                continue
+            for fam in (['ES'] + (['EU'] if unsigned else [])):
+                out.append('P(%s<%d>, %d, %s<%d>, 0, 2)' % (fam, d, gap, fam, d))
+                out.append('P(%s<%d>, %d, %s<%d>, %d, 2)' % (fam, d, -5 - gap, fam, d, -5))
+            if unsigned:
+                out.append('P(EU<%d>, %d, ES<%d>, 0, 2)' % (d, gap, d))
+    return out
 
 
 def plan(tier):
